@@ -305,6 +305,7 @@ func (e *Enc) copyOp(args []Val, st *State, reach string, rt types.Type) Val {
 func (e *Enc) callStatic(fr *Frame, fn *ssa.Function, args []Val, st *State, reach string, pos token.Pos, rt types.Type, cc *ssa.CallCommon) Val {
 	key := e.ctx.funcKey(fn)
 	if m, ok := externals[key]; ok {
+		noteExternal(key)
 		return m(e, fr, args, st, reach, pos, rt)
 	}
 	if recv := fn.Signature.Recv(); recv != nil && isPtr(recv.Type()) && len(args) > 0 && args[0].Loc == nil && len(args[0].L) == 1 && e.ctx.isRepoFunc(fn) {
@@ -429,6 +430,9 @@ func (e *Enc) callByContract(fr *Frame, fn *ssa.Function, c *Contract, args []Va
 	post := e.paramScope(fn, args, st.clone(), &oldSt, &errs, reach)
 	bindResults(post, fn, res, rt)
 	for _, en := range c.Ensures {
+		if len(en.Tags) > 0 && !e.wantsTags(en.Tags) {
+			continue // property-specific postcondition not needed by the function under proof
+		}
 		t := post.b(post.formula(en.F))
 		if errs != "" {
 			e.fatalf("%s:%d: binding error: %s in %q", en.File, en.Line, errs, en.Text)
@@ -441,6 +445,36 @@ func (e *Enc) callByContract(fr *Frame, fn *ssa.Function, c *Contract, args []Va
 		e.usedContracts[key] = true
 	}
 	return res
+}
+
+// wantsTags: tagged callee postconditions are assumed only when the function under proof has clauses with one of those tags.
+func (e *Enc) wantsTags(tags []string) bool {
+	if e.topTags == nil {
+		e.topTags = map[string]bool{}
+		if c := e.ctx.contractOf(e.topFn); c != nil {
+			for _, en := range c.Ensures {
+				for _, t := range en.Tags {
+					e.topTags[t] = true
+				}
+			}
+			for _, invs := range c.Invs {
+				for _, iv := range invs {
+					for _, t := range iv.Tags {
+						e.topTags[t] = true
+					}
+				}
+			}
+			for _, t := range c.Uses {
+				e.topTags[t] = true
+			}
+		}
+	}
+	for _, t := range tags {
+		if e.topTags[t] {
+			return true
+		}
+	}
+	return false
 }
 
 func shortKey(k string) string {
@@ -773,6 +807,7 @@ func (e *Enc) invoke(fr *Frame, cc *ssa.CallCommon, recv Val, args []Val, st *St
 	it := cc.Value.Type()
 	name := typeKeyFull(it) + "." + cc.Method.Name()
 	if m, ok := externals[name]; ok {
+		noteExternal(name)
 		return m(e, fr, append([]Val{recv}, args...), st, reach, pos, rt)
 	}
 	// statically known dynamic type?
@@ -867,6 +902,7 @@ type FuncResult struct {
 	Devirt   []string
 	Loops    int
 	Instrs   int
+	RetReach []string
 }
 
 func (ctx *Ctx) verifyFunc(fn *ssa.Function, opt *EncOpts) *FuncResult {
@@ -880,7 +916,7 @@ func (ctx *Ctx) verifyFunc(fn *ssa.Function, opt *EncOpts) *FuncResult {
 	e.keySort = e1.keySort
 	e.opt = opt
 	e.run(fn)
-	res := &FuncResult{Key: ctx.funcKey(fn), Obls: e.obls, Fatal: e.fatal, Script: e.body, Decl: e.decl}
+	res := &FuncResult{Key: ctx.funcKey(fn), Obls: e.obls, Fatal: e.fatal, Script: e.body, Decl: e.decl, RetReach: e.retReach}
 	for n := range e.notes {
 		res.Notes = append(res.Notes, n)
 	}
@@ -984,6 +1020,9 @@ func (e *Enc) run(fn *ssa.Function) {
 		return
 	}
 	e.encodeBody(fr, st, "true")
+	for _, r := range fr.rets {
+		e.retReach = append(e.retReach, r.reach)
+	}
 	if c == nil {
 		return
 	}
